@@ -4,7 +4,7 @@ from sim import logworld, pipeline
 PROP = 'C09'
 LEVEL = 'exploration'
 TIERS = {
-    'quick': {'runs': 3200, 'wall_per_run': 180},
+    'quick': {'runs': 6400, 'wall_per_run': 180},
     'thorough': {'runs': 120000, 'wall_per_run': 180, 'selftest': 400},
 }
 REQUIRED_PROBES = ['lines_restored', 'line_with_stored_and_pruned_cells', 'lost_entry_met',
@@ -39,7 +39,7 @@ def warmup():
     pipeline.execute_c09b(pipeline.gen_plan_c09b(0, 'warm', 1))
 
 
-LAYER_B_EVERY = 8       # every 8th plan is the two-process parse_folder pipeline (pfworld)
+LAYER_B_EVERY = 5       # every 5th plan is the two-process parse_folder pipeline (pfworld)
 
 
 def gen_plan(seed, tier, index):
